@@ -21,6 +21,7 @@ import (
 	"github.com/alibaba/sentinel-golang/core/flow"
 	"github.com/alibaba/sentinel-golang/core/hotspot"
 	"github.com/alibaba/sentinel-golang/core/stat"
+	"github.com/alibaba/sentinel-golang/core/system_metric"
 	"github.com/alibaba/sentinel-golang/util"
 	"verifharness/internal/vh"
 )
@@ -63,6 +64,7 @@ func (it *Interp) Reset() {
 func (it *Interp) clear() {
 	it.live = map[uint64]*base.SentinelEntry{} // entries still in flight are simply dropped with their phase
 	it.clk.ns = baseMs * 1e6                   // every phase starts at the same virtual time
+	system_metric.SetSystemMemoryUsage(system_metric.NotRetrievedMemoryValue)
 	_ = flow.ClearRules()
 	_ = circuitbreaker.ClearRules()
 	_ = hotspot.ClearRules()
@@ -111,8 +113,11 @@ func flowRules(arg string) []*flow.Rule {
 	var rs []*flow.Rule
 	for _, s := range split(arg) {
 		n := nums(s)
-		if len(n) != 11 {
+		if len(n) != 11 && len(n) != 15 {
 			panic("bad flow rule " + s)
+		}
+		if len(n) == 11 {
+			n = append(n, 0, 0, 0, 0)
 		}
 		ref := ""
 		if n[6] != 0 {
@@ -122,7 +127,9 @@ func flowRules(arg string) []*flow.Rule {
 			ID: strconv.FormatUint(n[0], 10), Resource: resName(n[1]), TokenCalculateStrategy: flow.TokenCalculateStrategy(n[2]),
 			ControlBehavior: flow.ControlBehavior(n[3]), Threshold: float64(n[4]), RelationStrategy: flow.RelationStrategy(n[5]),
 			RefResource: ref, MaxQueueingTimeMs: uint32(n[7]), WarmUpPeriodSec: uint32(n[8]), WarmUpColdFactor: uint32(n[9]),
-			StatIntervalInMs: uint32(n[10]),
+			StatIntervalInMs:     uint32(n[10]),
+			LowMemUsageThreshold: int64(n[11]), HighMemUsageThreshold: int64(n[12]),
+			MemLowWaterMarkBytes: int64(n[13]), MemHighWaterMarkBytes: int64(n[14]),
 		})
 	}
 	return rs
@@ -231,6 +238,9 @@ func (it *Interp) step(t []string, op string) string {
 		if _, err := hotspot.LoadRulesOfResource(resName(vh.U(t[1])), hotRules(t[2])); err != nil {
 			return "err"
 		}
+		return ""
+	case "mem":
+		system_metric.SetSystemMemoryUsage(int64(vh.U(t[1])))
 		return ""
 	case "in":
 		it.clk.slept = 0
